@@ -5,7 +5,7 @@
    execution after every action; `no_err err_Cxx m` = the monitor reported no error of this property's class;
    `no_raise ls` = no request ended in an exception. *)
 From Coq Require Import ZArith List Bool.
-From CS Require Ops RevConv RevBridge4 RevolveRun Refuted DiskRun DiskBridge3 HRevRun.
+From CS Require Ops RevConv RevBridge4 RevolveRun Refuted DiskRun DiskBridge3 HRevRun HRevTop.
 From CS Require Import Actions NAdvance Multistage Exec Sched RunFacts Projections BasicInv MultistageRun AllocTotal TLBridge MixBridge.
 Import ListNotations.
 Open Scope Z_scope.
@@ -78,10 +78,9 @@ Theorem C04_disk_revolve_only_leftover_partial : forall (N ram disk uf ub wd rd 
   exists o0 m ls, run_case (PRev RevConv.KDiskRevolve N ram disk uf ub wd rd) (DiskRun.disk_xparams N ram) (repeat Next k) = Ok (o0, m, ls) /\ no_raise ls /\ DiskBridge3.leftover_or_ok m.
 Proof. exact DiskRun.disk_revolve_run. Qed.
 Print Assumptions C04_disk_revolve_only_leftover_partial.
-Theorem C04_hrevolve_only_leftover_partial : forall (N ram disk uf ub wd rd : Z) (L : list Ops.op) (k : nat), 1 <= N -> 1 <= ram ->
-  RevConv.sequence RevConv.KHRevolve N ram disk uf ub wd rd = Ok L ->
+Theorem C04_hrevolve_only_leftover_partial : forall (N ram disk uf ub wd rd : Z) (k : nat), 1 <= N -> 1 <= ram -> 0 <= disk ->
   exists o0 m ls, run_case (PRev RevConv.KHRevolve N ram disk uf ub wd rd) (DiskRun.disk_xparams N ram) (repeat Next k) = Ok (o0, m, ls) /\ no_raise ls /\ DiskBridge3.leftover_or_ok m.
-Proof. exact HRevRun.hrevolve_run. Qed.
+Proof. exact HRevTop.hrevolve_run_total. Qed.
 Print Assumptions C04_hrevolve_only_leftover_partial.
 
 (* REFUTED for HRevolve (known finding D8-C04): a parameter tuple of the documented domain whose run on the extracted model reaches EndReverse with a checkpoint left on DISK (first monitor error E_leftover); the witness is HRevolve(4, 1, 1, uf=1, ub=1, wd=0, rd=1), evaluated by vm_compute *)
